@@ -10,6 +10,7 @@ MCData == { D("h1", 32, "raw", "h1", 32, {"sha256"}), D("h2", 32, "raw", "h2", 3
             D("c1", 700, "raw", "c1", 700, {"x509"}), D("c2", 700, "raw", "c2", 700, {"x509"}),
             D("c3", 900, "raw", "c3", 900, {"x509"}),
             D("p1", 1006, "pem", "c1", 700, {"x509"}), D("p3", 1275, "pem", "c3", 900, {"x509"}),
+            D("p1b", 1070, "pem", "c1", 700, {"x509"}), D("p3n", 1276, "pem", "c3", 900, {"x509"}),
             D("s1", 20, "raw", "s1", 20, {"sha1"}), D("u1", 40, "raw", "u1", 40, {"bogus"}) }
 MCInit == Init /\ hist = <<>>
 MCNext == Len(hist) < Depth /\ Next /\ hist' = Append(hist, last')
